@@ -322,11 +322,24 @@ def install(E):
         ptr = P_(E, st, a[0]); sz = conc(E, st, a[1], 'fread size'); cnt = conc(E, st, a[2], 'fread count', 16); fp = P_(E, st, a[3])
         name, pos, mode, pend = fstate(st, fp, 'fread')
         if st.env.get('interfere'):
-            # thread-modular interference on a shared stream: another worker may have moved the position anywhere
-            data = st.env['files'][name]
-            pv = z3.BitVec('interfere_pos%d' % len(st.syms), 64); st.syms.append(('interfere_pos%d' % len(st.syms), pv))
-            E.add_pc(st, z3.ULE(pv, BVV(len(data), 64)))
-            pos = E.concretize(st, pv, 'interfered stream position', 4096)
+            # Thread-modular interference on a stream shared with other workers of the parallel region: between this worker's
+            # fseek and this fread another worker may have executed its own fseek/fread on the same FILE*, leaving the position
+            # at any offset such a worker uses.  One interference per path; candidate positions = every position this stream
+            # was ever sought to or left at in this run (plus 0 and EOF).  Only inside a parallel region and outside critical
+            # sections / flockfile.  freads are numbered from the moment interference was enabled (native replay counts alike).
+            k = st.env.get('freads_seen', 0) + 1
+            eligible = E.in_parallel(st) and not st.env.get('in_critical')
+            if st.env.get('interfere_now') is not None:
+                pos = st.env['interfere_now']
+                st.env = dict(st.env); st.env['interfere_now'] = None; st.env['interfered'] = (k, pos); st.env['freads_seen'] = k
+                st.notes.append('interference: another worker moved the shared stream to offset %d before fread #%d' % (pos, k))
+            else:
+                if eligible and not st.env.get('interfered'):
+                    cands = sorted(set(st.env.get('stream_positions:' + name, ())) | {0, len(st.env['files'][name])})
+                    for p2 in cands:
+                        if p2 == pos: continue
+                        st2 = st.fork(); st2.frames[-1].ip -= 1; st2.env = dict(st2.env); st2.env['interfere_now'] = p2; E.work.append(st2)
+                st.env = dict(st.env); st.env['freads_seen'] = k
         data = st.env['files'][name]
         nb = sz * cnt
         avail = max(0, len(data) - pos)
@@ -336,6 +349,8 @@ def install(E):
         if got:
             E.write_bytes(st, ptr, list(data[pos:pos + got]), 'fread destination')
         fset(st, fp, (name, pos + got, mode, pend))
+        sp = 'stream_positions:' + name
+        st.env[sp] = tuple(set(st.env.get(sp, ())) | {pos + got})
         return items
     @reg('fseek', 'fseeko', 'fseeko64')
     def _fseek(E, st, fr, a, d):
@@ -346,7 +361,10 @@ def install(E):
         size = len(st.env['files'][name])
         np_ = off if wh == 0 else (pos + off if wh == 1 else size + off)
         if np_ < 0: return 0xFFFFFFFF
-        fset(st, fp, (name, np_, mode, pend)); return 0
+        fset(st, fp, (name, np_, mode, pend))
+        sp = 'stream_positions:' + name
+        st.env[sp] = tuple(set(st.env.get(sp, ())) | {np_})
+        return 0
     @reg('ftell', 'ftello', 'ftello64')
     def _ftell(E, st, fr, a, d):
         fp = P_(E, st, a[0]); name, pos, mode, pend = fstate(st, fp, 'ftell'); return pos
@@ -403,6 +421,69 @@ def install(E):
         st.mem[p.obj] = Tomb(o.name); st.owned.discard(p.obj); return 0
     @reg('madvise', 'posix_madvise')
     def _madvise(E, st, fr, a, d): return 0
+
+    # ------------------------------------------------------------ libomp runtime (clang -fopenmp lowering): ONE worker runs the region
+    # (sequential schedule); iterations of a dynamic-schedule loop are handed out one at a time in an order chosen by a
+    # symbolic fork (env 'omp_permute'), critical sections switch the stream-interference model off.
+    @reg('__kmpc_global_thread_num')
+    def _gtid(E, st, fr, a, d): return 0
+    @reg('__kmpc_push_num_threads', '__kmpc_serialized_parallel', '__kmpc_end_serialized_parallel', '__kmpc_barrier', '__kmpc_for_static_fini',
+         '__kmpc_push_proc_bind', '__kmpc_flush')
+    def _knop(E, st, fr, a, d): return 0
+    @reg('__kmpc_fork_call')
+    def _fork_call(E, st, fr, a, d):
+        micro = P_(E, st, a[2])
+        name = E.fnobj.get(micro.obj)
+        if name is None: raise EngineLimit('__kmpc_fork_call of unknown microtask')
+        g = st.alloc(4, 'stack', 'omp.gtid', 0); b = st.alloc(4, 'stack', 'omp.btid', 0)
+        fr.allocas.append(g); fr.allocas.append(b)
+        E.call(st, fr, name, [Ptr(g, 0), Ptr(b, 0)] + list(a[3:]), -1)
+        # region end is detected when the microtask frame returns: par_depth is decremented lazily by the next fork/critical query
+        st.frames[-1].va = ('omp_region',)
+        return Ellipsis
+    def in_parallel(st):
+        return any(f.va == ('omp_region',) for f in st.frames)
+    E.in_parallel = in_parallel
+    @reg('__kmpc_dispatch_init_4', '__kmpc_dispatch_init_4u', '__kmpc_dispatch_init_8')
+    def _dinit(E, st, fr, a, d):
+        lb, ub = a[3], a[4]
+        if type(lb) is not int or type(ub) is not int: raise EngineLimit('symbolic OpenMP loop bounds')
+        bits = 64 if fr.fn.name.endswith('_8') else 32
+        lo, hi = to_signed(lb, 32), to_signed(ub, 32)
+        its = list(range(lo, hi + 1))
+        st.env = dict(st.env)
+        if st.env.get('omp_permute') and 2 <= len(its) <= 3:
+            import itertools
+            perms = list(itertools.permutations(its))
+            for k, pm in enumerate(perms[1:], 1):
+                st2 = st.fork(); st2.env = dict(st2.env); st2.env['omp_iters'] = list(pm); st2.choices.append(('omp_order', k)); E.work.append(st2)
+            st.choices.append(('omp_order', 0))
+        st.env['omp_iters'] = its
+        return 0
+    @reg('__kmpc_dispatch_next_4', '__kmpc_dispatch_next_4u', '__kmpc_dispatch_next_8')
+    def _dnext(E, st, fr, a, d):
+        its = st.env.get('omp_iters') or []
+        if not its: return 0
+        i = its[0]
+        st.env = dict(st.env); st.env['omp_iters'] = its[1:]
+        E.store(st, P_(E, st, a[2]), 1 if len(its) == 1 else 0, 4)
+        E.store(st, P_(E, st, a[3]), i & 0xffffffff, 4); E.store(st, P_(E, st, a[4]), i & 0xffffffff, 4); E.store(st, P_(E, st, a[5]), 1, 4)
+        return 1
+    @reg('__kmpc_critical', '__kmpc_critical_with_hint')
+    def _crit(E, st, fr, a, d):
+        st.env = dict(st.env); st.env['in_critical'] = st.env.get('in_critical', 0) + 1; return 0
+    @reg('__kmpc_end_critical')
+    def _ecrit(E, st, fr, a, d):
+        st.env = dict(st.env); st.env['in_critical'] = max(0, st.env.get('in_critical', 0) - 1); return 0
+    @reg('flockfile')
+    def _flock(E, st, fr, a, d):
+        st.env = dict(st.env); st.env['in_critical'] = st.env.get('in_critical', 0) + 1; return 0
+    @reg('funlockfile')
+    def _funlock(E, st, fr, a, d):
+        st.env = dict(st.env); st.env['in_critical'] = max(0, st.env.get('in_critical', 0) - 1); return 0
+    @reg('symx_omp_permute')
+    def _permute(E, st, fr, a, d):
+        st.env = dict(st.env); st.env['omp_permute'] = int(a[0]); return 0
 
     # ------------------------------------------------------------ cpuid hooks of the intrinsic models
     @reg('verif_cpuid_reg')
